@@ -422,6 +422,20 @@ def check_geodesic(case):
         want, _ = geodesic_oracle(v, case['n_cond'])
         require_close(got[i], want, 'geodesic_transform of RDM %d: shortest paths in the min-max graph '
                       'without its maximal edges' % i, 'value:geodesic', rtol=1e-9, atol=1e-12)
+    # the same on RDMs that are min-max normalised already (output of minmax_transform, 0/1 category
+    # models): same distances, and the object handed in still holds its own values afterwards
+    mm = lib(T.minmax_transform, build(case['vecs'], case['desc']), on_error='violation',
+             sig='raises:minmax_transform')
+    held = np.array(mm.dissimilarities, dtype=float, copy=True)
+    out2 = lib(T.geodesic_transform, mm, on_error='violation', sig='raises:geodesic_transform')
+    require(np.array_equal(np.asarray(mm.dissimilarities, dtype=float), held, equal_nan=True),
+            'geodesic_transform overwrote the (already normalised) RDMs it was given: %s -> %s' % (
+                core._short(held), core._short(np.asarray(mm.dissimilarities, dtype=float))),
+            'geodesic:source-overwritten')
+    require_close(np.asarray(out2.dissimilarities, dtype=float), got,
+                  'geodesic_transform of the min-max normalised RDMs vs of the RDMs themselves',
+                  'value:geodesic:normalised-input', rtol=1e-9, atol=1e-12)
+
 
 
 def classify_geodesic(case):
